@@ -6,6 +6,7 @@
                                followed by ":" and the new num_bytes_encoded
      S <harness answer line>   spec: replay the implementation's IR with the extracted ir_run
                                (history = custom dictionary ++ everything before); OK | FAIL mb=<k> <why>
+     A <harness answer line>   the three answers below joined by " | "
      W <harness answer line>   hypothesis of C14_recode on the implementation's command lists
                                (extracted cmds_ok): OK <n> | FAIL mb=<k>
      X <word_size> <word_id> <transform>   dict_expand -> hex | NONE *)
@@ -108,7 +109,7 @@ let hash_str s = let h = ref 0 in Stdlib.String.iter (fun c -> h := hmix !h (Cha
 let panic_name = function
   | PSplitLengths0 -> "lengths[0]" | PNumTypes -> "num_types" | PAssertInserts -> "inserts<=mb_len"
   | PCopyLenLt4 -> "copy_len>=4" | PCopyLenGe25 -> "copy_len<25" | PDictIndex -> "dict-index"
-  | PDictAssertEq -> "dict-assert_eq" | PSubOverflow -> "sub-overflow" | PSliceLen32 -> "len32"
+  | PDictAssertEq -> "dict-assert_eq" | PSubOverflow -> "sub-overflow"
 let err_name = function
   | EDistanceZero -> "copy-distance-0" | EDistanceBeyondProduced -> "copy-distance-beyond-produced"
   | EOverrun -> "command-runs-past-the-meta-block" | ENoSuchWord -> "no-such-dictionary-word"
@@ -205,6 +206,20 @@ let () = iter_lines (fun line ->
          | 'M' -> print_endline (model_line rest)
          | 'S' -> print_endline (spec_line rest)
          | 'W' -> print_endline (hyp_line rest)
+         | 'A' -> print_endline (model_line rest ^ " | " ^ spec_line rest ^ " | " ^ hyp_line rest)
+         | 'T' ->
+           (* premises of C14_recode on the real tables: number of transforms, longest expansion *)
+           let mx = ref 0 and cnt = ref 0 in
+           for ws = 4 to 24 do
+             for id = 0 to (1 lsl (int_of_n (ndbits (n_of_int ws)))) - 1 do
+               let w = dict_word (n_of_int ws) (n_of_int id) in
+               Stdlib.List.iteri (fun t _ ->
+                   match apply_transform transforms (n_of_int t) w with
+                   | Some e -> incr cnt; let l = Stdlib.List.length e in if l > !mx then mx := l
+                   | None -> ()) transforms
+             done
+           done;
+           Printf.printf "transforms=%d expansions=%d longest=%d\n" (Stdlib.List.length transforms) !cnt !mx
          | 'X' ->
            (match Stdlib.List.map int_of_string (split_ws rest) with
             | [ws; id; tr] ->
